@@ -388,3 +388,199 @@ Proof.
   match type of Hb with match ?x with _ => _ end = _ => destruct x as [[[[s1 p1] t1]|]|] eqn:E2; try discriminate end.
   inversion Hb; subst. exact (seq_eoi_rest _ _ _ _ _ _ _ _ _ E2).
 Qed.
+
+(* ---- text without a brace is one Raw element (C03: a template without markup renders to itself) ---- *)
+Lemma skipf_id f at_ la s pos : at_ <> NonAtomic -> skipf liquid_grammar liquid_ws f at_ la s pos = Some (Some (s, pos, [])).
+Proof. intro H. unfold skipf. destruct at_; [contradiction|reflexivity|reflexivity]. Qed.
+
+Lemma ws_rule_one_any at_ fuel la s pos : 6 <= fuel ->
+  evg fuel at_ la (PRef r_WHITESPACE) s pos =
+  Some (match s with
+        | c :: r => if (c =? 13)%N then match r with 10%N :: r' => Some (r', pos + 2, []) | _ => Some (r, pos + 1, []) end
+                    else if is_ws c then Some (r, pos + 1, []) else None
+        | [] => None
+        end).
+Proof.
+  intro Hf. do 6 (destruct fuel as [|fuel]; [lia|]).
+  rewrite ev_ref. rules. cbn [r_mod r_body]. cbv zeta.
+  replace (negb la && negb (atom_eqb at_ Atomic) && negb true) with false by (destruct la, at_; reflexivity).
+  rewrite !ev_alt, !ev_lit.
+  destruct s as [|c r]; [reflexivity|].
+  rewrite !strip1. unfold is_ws. cbn [length Nat.add].
+  destruct (N.eqb_spec 32 c) as [<-|N1]; [reflexivity|].
+  destruct (N.eqb_spec 9 c) as [<-|N2]; [reflexivity|].
+  destruct (N.eqb_spec 10 c) as [<-|N3]; [reflexivity|].
+  cbn [strip_prefix].
+  destruct (N.eqb_spec 13 c) as [<-|N4].
+  - cbn [N.eqb Pos.eqb orb]. destruct r as [|d r']; [reflexivity|].
+    destruct (N.eqb_spec 10 d) as [<-|N5]; [reflexivity|].
+    replace (d =? 10)%N with false by lia.
+    destruct d as [|p]; [reflexivity|]. repeat (destruct p as [p|p|]; try reflexivity); exfalso; apply N5; reflexivity.
+  - replace (c =? 13)%N with false by lia. replace (c =? 32)%N with false by lia. replace (c =? 9)%N with false by lia.
+    replace (c =? 10)%N with false by lia. reflexivity.
+Qed.
+
+Lemma plus_ws_any at_ la : at_ <> NonAtomic -> forall n s fuel pos, length s <= n -> 7 + length s <= fuel ->
+  evg fuel at_ la (PPlus (PRef r_WHITESPACE)) s pos =
+  Some (if ws_head s then Some (drop_ws s, pos + count_ws s, []) else None).
+Proof.
+  intro Hat. induction n as [|n IH]; intros s fuel pos Hn Hf.
+  - destruct s; [|cbn in Hn; lia]. destruct fuel as [|f]; [lia|]. rewrite ev_plus, ws_rule_one_any by lia. reflexivity.
+  - destruct fuel as [|f]; [lia|]. rewrite ev_plus, ws_rule_one_any by lia.
+    destruct s as [|c r]; [reflexivity|]. cbn [length] in Hn, Hf. cbn [ws_head].
+    destruct (N.eqb_spec c 13) as [->|N13].
+    + change (is_ws 13%N) with true. cbn iota.
+      destruct r as [|d r'].
+      * rewrite skipf_id by exact Hat. rewrite (IH [] f (pos + 1)) by (cbn; lia). cbn [ws_head drop_ws count_ws is_ws]. change (is_ws 13%N) with true. cbn iota.
+        fin.
+      * destruct (N.eqb_spec d 10) as [->|N10].
+        -- cbn [length] in Hn, Hf. rewrite skipf_id by exact Hat. rewrite (IH r' f (pos + 2)) by lia.
+           cbn [drop_ws count_ws]. change (is_ws 13%N) with true. change (is_ws 10%N) with true. cbn iota.
+           destruct (ws_head r') eqn:E; [fin|].
+           destruct (drop_ws_nohead r' E) as [-> ->]. fin.
+        -- assert (match d :: r' with 10%N :: r'0 => Some (r'0, pos + 2, @nil tok) | _ => Some (d :: r', pos + 1, []) end = Some (d :: r', pos + 1, [])) as ->.
+           { destruct d as [|p]; [reflexivity|]. repeat (destruct p as [p|p|]; try reflexivity); exfalso; apply N10; reflexivity. }
+           assert (Hl : length (d :: r') <= n) by (cbn [length] in *; lia).
+           assert (Hl2 : 7 + length (d :: r') <= f) by (cbn [length] in *; lia).
+           remember (d :: r') as rest eqn:Er. clear Er.
+           rewrite skipf_id by exact Hat. rewrite (IH rest f (pos + 1)) by assumption.
+           cbn [drop_ws count_ws]. change (is_ws 13%N) with true. cbn iota.
+           destruct (ws_head rest) eqn:E; [fin|].
+           destruct (drop_ws_nohead rest E) as [-> ->]. fin.
+    + destruct (is_ws c) eqn:W; [|reflexivity].
+      rewrite skipf_id by exact Hat. rewrite (IH r f (pos + 1)) by lia. cbn [drop_ws count_ws]. rewrite W.
+      destruct (ws_head r) eqn:E; [fin|].
+      destruct (drop_ws_nohead r E) as [-> ->]. fin.
+Qed.
+Theorem ws_star_any at_ la s pos fuel : at_ <> NonAtomic -> 8 + length s <= fuel ->
+  evg fuel at_ la (PStar (PRef r_WHITESPACE)) s pos = Some (Some (drop_ws s, pos + count_ws s, [])).
+Proof.
+  intros Hat Hf. destruct fuel as [|f]; [lia|]. rewrite ev_star, (plus_ws_any at_ la Hat (length s)) by lia.
+  destruct (ws_head s) eqn:E; [reflexivity|]. destruct (drop_ws_nohead s E) as [-> ->]. fin.
+Qed.
+
+Definition no_brace (s : str) : bool := forallb (fun c => negb (c =? 123)%N) s.
+Lemma no_brace_drop s : no_brace s = true -> no_brace (drop_ws s) = true.
+Proof. induction s as [|c t IH]; [reflexivity|]. cbn [no_brace forallb drop_ws]. intro H. destruct (is_ws c); [apply andb_true_iff in H as [_ H]; auto|exact H]. Qed.
+Lemma lit_brace_fails l s : no_brace s = true -> strip_prefix (123%N :: l) s = None.
+Proof. destruct s as [|c t]; [reflexivity|]. cbn [no_brace forallb strip_prefix]. intro H. apply andb_true_iff in H as [H _]. destruct (N.eqb_spec 123 c) as [<-|N]; [discriminate|reflexivity]. Qed.
+
+(* a start delimiter (with or without trim marker) does not match where no brace follows *)
+Lemma start_fails (which : nat) at_ la s pos fuel : which = r_TagStart \/ which = r_ExpressionStart ->
+  at_ <> NonAtomic -> no_brace s = true -> 12 + length s <= fuel -> evg fuel at_ la (PRef which) s pos = Some None.
+Proof.
+  intros Hw Hat Hn Hf. do 4 (destruct fuel as [|fuel]; [lia|]).
+  destruct Hw as [-> | ->]; rewrite ev_ref; rules; cbn [r_mod r_body]; cbv zeta;
+    rewrite ev_alt, ev_seq; (rewrite (ws_star_any _ _ s pos (S fuel)) by (try assumption; destruct at_; try discriminate; lia));
+    rewrite skipf_id by exact Hat; rewrite !ev_lit; rewrite (lit_brace_fails _ _ (no_brace_drop s Hn)), (lit_brace_fails _ _ Hn); reflexivity.
+Qed.
+
+Lemma ev_any_cons g ws f at_ la c t pos : ev g ws (S f) at_ la PAny (c :: t) pos = Some (Some (t, S pos, [])).
+Proof. reflexivity. Qed.
+Lemma ev_any_nil g ws f at_ la pos : ev g ws (S f) at_ la PAny [] pos = Some None.
+Proof. reflexivity. Qed.
+Definition raw_item : pe := PSeq (PNot (PAlt (PRef r_TagStart) (PRef r_ExpressionStart))) PAny.
+
+Lemma starts_fail at_ la s pos fuel : at_ <> NonAtomic -> no_brace s = true -> 13 + length s <= fuel ->
+  evg fuel at_ la (PAlt (PRef r_TagStart) (PRef r_ExpressionStart)) s pos = Some None.
+Proof.
+  intros Hat Hn Hf. destruct fuel as [|f]; [lia|]. rewrite ev_alt.
+  rewrite (start_fails r_TagStart at_ la s pos f (or_introl eq_refl) Hat Hn) by lia.
+  apply (start_fails r_ExpressionStart at_ la s pos f (or_intror eq_refl) Hat Hn). lia.
+Qed.
+Lemma raw_item_cons c t pos fuel : no_brace (c :: t) = true -> 16 + length t <= fuel ->
+  evg fuel Atomic false raw_item (c :: t) pos = Some (Some (t, S pos, [])).
+Proof.
+  intros Hn Hf. do 2 (destruct fuel as [|fuel]; [lia|]). unfold raw_item. rewrite ev_seq, ev_not.
+  rewrite (starts_fail Atomic true (c :: t) pos fuel) by (try discriminate; try assumption; cbn [length]; lia).
+  rewrite skipf_id by discriminate. destruct fuel as [|f]; [lia|]. rewrite ev_any_cons. reflexivity.
+Qed.
+Lemma raw_item_nil pos fuel : 16 <= fuel -> evg fuel Atomic false raw_item [] pos = Some None.
+Proof.
+  intros Hf. do 2 (destruct fuel as [|fuel]; [lia|]). unfold raw_item. rewrite ev_seq, ev_not.
+  rewrite (starts_fail Atomic true [] pos fuel) by (try discriminate; try reflexivity; cbn [length]; lia).
+  rewrite skipf_id by discriminate. destruct fuel as [|f]; [lia|]. rewrite ev_any_nil. reflexivity.
+Qed.
+Lemma raw_plus : forall t c pos fuel, no_brace (c :: t) = true -> 18 + length t <= fuel ->
+  evg fuel Atomic false (PPlus raw_item) (c :: t) pos = Some (Some ([], S pos + length t, [])).
+Proof.
+  induction t as [|d t IH]; intros c pos fuel Hn Hf; (destruct fuel as [|f]; [lia|]); rewrite ev_plus.
+  - rewrite raw_item_cons by (try assumption; cbn [length] in *; lia). rewrite skipf_id by discriminate.
+    destruct f as [|f']; [lia|]. rewrite ev_plus. rewrite raw_item_nil by (cbn [length] in *; lia). cbn [length]. fin.
+  - rewrite raw_item_cons by (try assumption; cbn [length] in *; lia). rewrite skipf_id by discriminate.
+    assert (Hn' : no_brace (d :: t) = true) by (cbn [no_brace forallb] in *; apply andb_true_iff in Hn as [_ Hn]; exact Hn).
+    rewrite (IH d (S pos) f Hn') by (cbn [length] in *; lia). cbn [length app]. apply res_eq. lia.
+Qed.
+
+Ltac rwn H := let X := fresh "X" in pose proof H as X;
+  cbv [r_WHITESPACE r_TagStart r_ExpressionStart r_Expression r_Tag r_Raw r_Element r_InvalidLiquid r_LaxLiquidFile lax_item raw_item] in X;
+  rewrite X; clear X.
+Lemma expr_or_tag_fails (which : nat) la s pos fuel : which = r_Expression \/ which = r_Tag ->
+  no_brace s = true -> 16 + length s <= fuel -> evg fuel Compound la (PRef which) s pos = Some None.
+Proof.
+  intros Hw Hn Hf. do 2 (destruct fuel as [|fuel]; [lia|]).
+  destruct Hw as [-> | ->]; rewrite ev_ref; rules; cbn [r_mod r_body]; cbv zeta; rewrite ev_seq.
+  - rwn (start_fails r_ExpressionStart Compound la s pos fuel (or_intror eq_refl) ltac:(discriminate) Hn ltac:(lia)). reflexivity.
+  - rwn (start_fails r_TagStart Compound la s pos fuel (or_introl eq_refl) ltac:(discriminate) Hn ltac:(lia)). reflexivity.
+Qed.
+Lemma raw_matches c t pos fuel : no_brace (c :: t) = true -> 20 + length t <= fuel ->
+  evg fuel Compound false (PRef r_Raw) (c :: t) pos =
+  Some (Some ([], S pos + length t, [mkTok r_Raw pos (S pos + length t)])).
+Proof.
+  intros Hn Hf. destruct fuel as [|f]; [lia|]. rewrite ev_ref. rules. cbn [r_mod r_body atom_eqb negb andb]. cbv zeta.
+  rwn (raw_plus t c pos f Hn ltac:(lia)). reflexivity.
+Qed.
+Lemma raw_fails_nil pos fuel : 20 <= fuel -> evg fuel Compound false (PRef r_Raw) [] pos = Some None.
+Proof.
+  intros Hf. do 2 (destruct fuel as [|fuel]; [lia|]). rewrite ev_ref. rules. cbn [r_mod r_body]. cbv zeta.
+  rewrite ev_plus. rwn (raw_item_nil pos fuel ltac:(lia)). reflexivity.
+Qed.
+Lemma lax_item_text c t pos fuel : no_brace (c :: t) = true -> 24 + length t <= fuel ->
+  evg fuel Compound false lax_item (c :: t) pos = Some (Some ([], S pos + length t, [mkTok r_Raw pos (S pos + length t)])).
+Proof.
+  intros Hn Hf. do 4 (destruct fuel as [|fuel]; [lia|]). unfold lax_item. rewrite ev_alt, ev_ref. rules. cbn [r_mod r_body]. cbv zeta.
+  replace (negb false && negb (atom_eqb Compound Atomic) && negb true) with false by reflexivity.
+  rewrite !ev_alt.
+  rwn (expr_or_tag_fails r_Expression false (c :: t) pos (S fuel) (or_introl eq_refl) Hn ltac:(cbn [length]; lia)).
+  rwn (expr_or_tag_fails r_Tag false (c :: t) pos fuel (or_intror eq_refl) Hn ltac:(cbn [length]; lia)).
+  rwn (raw_matches c t pos fuel Hn ltac:(lia)). reflexivity.
+Qed.
+Lemma lax_item_end pos fuel : 30 <= fuel -> evg fuel Compound false lax_item [] pos = Some None.
+Proof.
+  intros Hf. do 4 (destruct fuel as [|fuel]; [lia|]). unfold lax_item. rewrite ev_alt, !ev_ref. rules. cbn [r_mod r_body]. cbv zeta.
+  rewrite !ev_alt.
+  rwn (expr_or_tag_fails r_Expression false [] pos (S fuel) (or_introl eq_refl) eq_refl ltac:(cbn [length]; lia)).
+  rwn (expr_or_tag_fails r_Tag false [] pos fuel (or_intror eq_refl) eq_refl ltac:(cbn [length]; lia)).
+  rwn (raw_fails_nil pos fuel ltac:(lia)).
+  (* InvalidLiquid: nothing left for ANY *)
+  rewrite ev_seq, ev_not.
+  rwn (expr_or_tag_fails r_Expression true [] pos fuel (or_introl eq_refl) eq_refl ltac:(cbn [length]; lia)).
+  rewrite skipf_id by discriminate. rewrite ev_any_nil. reflexivity.
+Qed.
+
+(* C03: a text that contains no brace is exactly one Raw element covering all of it, followed by EOI —
+   parser.rs turns a Raw element into the text it spans and renders it with a plain write *)
+Theorem no_markup_is_one_raw c t fuel : no_brace (c :: t) = true -> 40 + length t <= fuel ->
+  parse liquid_grammar liquid_ws fuel r_LaxLiquidFile (c :: t) =
+  Some (Some ([], S (length t),
+              [mkTok r_LaxLiquidFile 0 (S (length t)); mkTok r_Raw 0 (S (length t)); mkTok eoi_id (S (length t)) (S (length t))])).
+Proof.
+  intros Hn Hf. unfold parse. do 6 (destruct fuel as [|fuel]; [lia|]).
+  rewrite ev_ref. rules. cbn [r_mod r_body]. cbv zeta.
+  rewrite ev_seq, ev_soi. cbn [Nat.eqb]. rewrite skipf_id by discriminate.
+  rewrite ev_seq, ev_star, ev_plus.
+  rwn (lax_item_text c t 0 (S fuel) Hn ltac:(lia)). rewrite skipf_id by discriminate.
+  destruct fuel as [|f]; [lia|]. rewrite ev_plus. rwn (lax_item_end (S 0 + length t) (S f) ltac:(lia)).
+  rewrite skipf_id by discriminate. cbn [ev atom_eqb orb app Nat.add]. reflexivity.
+Qed.
+Theorem empty_text_is_no_element fuel : 40 <= fuel ->
+  parse liquid_grammar liquid_ws fuel r_LaxLiquidFile [] =
+  Some (Some ([], 0, [mkTok r_LaxLiquidFile 0 0; mkTok eoi_id 0 0])).
+Proof.
+  intros Hf. unfold parse. do 6 (destruct fuel as [|fuel]; [lia|]).
+  rewrite ev_ref. rules. cbn [r_mod r_body]. cbv zeta.
+  rewrite ev_seq, ev_soi. cbn [Nat.eqb]. rewrite skipf_id by discriminate.
+  rewrite ev_seq, ev_star, ev_plus.
+  rwn (lax_item_end 0 (S fuel) ltac:(lia)).
+  rewrite skipf_id by discriminate. cbn [ev atom_eqb orb app Nat.add]. reflexivity.
+Qed.
